@@ -460,6 +460,10 @@ def run(rep: Report, tier: str) -> None:
     # ---- R10.13: isnull over a mono-measure dataset delivers the measure under the declared name ----
     rep.rule("R10.13", "isnull over a dataset with one measure: measure name declared by Unary.validate == alias delivered by visit_UnaryOp, per measure type")
     isnull_measure_name_agrees(P, rep, "R10.13")
+    # ---- R10.14: the structure declared for an n-ary set operator covers every operand (shared with C11) ----
+    rep.rule("R10.14", "Set.validate evaluated on three operands: declared type == promotion of all operand types, declared nullable == any operand nullable (the data of a middle operand conform)")
+    from sa.checks.c11 import set_operator_result as _sor
+    _sor(P, rep, "R10.14")
     rep.assumptions = ["structure objects are changed only through attribute stores / dict mutation of .components (no setattr/__dict__ tricks: none exist in the package)",
                        "values, uniqueness and nullability of the DATA are produced by DuckDB and are not decided here"]
 
